@@ -50,8 +50,13 @@ def _field_of(units):
     return "".join(u["s"] for u in units)
 
 
-def _key(mode, real, links, field, text, noglob, cwd):
-    return {"mode": mode, "real": real, "links": links, "field": field, "text": text, "noglob": noglob, "cwd": cwd}
+def _key(mode, real, links, units, text, noglob, cwd, observed):
+    field = _field_of(units)
+    return {"mode": mode, "real": real, "links": links, "field": field, "text": text, "noglob": noglob, "cwd": cwd,
+            # the word holds a backslash that stems from an expansion
+            "escape": any(u["k"] == "var" and "\\" in u["s"] for u in units),
+            # the word itself was delivered
+            "got_unchanged": observed == [field]}
 
 
 def _validate_sharded(path, shards, timeout):
@@ -135,7 +140,8 @@ def run(tier):
         vlib.log(f"[p4] {cfg}: {summ['sim_cases']} cases on the simulated fs, {summ['real_cases']} on the real fs, "
                  f"{summ['noglob_cases']} noglob; {summ['mismatches']} deviation(s)")
         for m in vlib.read_ndjson(mis):
-            key = _key(m["mode"], m["real"], m["links"], m["field"], m["text"], m["noglob"], m["tree"]["cwd"])
+            key = _key(m["mode"], m["real"], m["links"], m["units"], m["text"], m["noglob"], m["tree"]["cwd"],
+                       m["observed"])
             rep.violation(key, f"{m['mode']} file system: `{m['text']}` delivered {m['observed']} ({m['outcome']}); "
                                f"allowed {m['allowed']}", m)
         os.remove(gen)
@@ -162,7 +168,7 @@ def run(tier):
         else:
             real = "differs"
         mode = "real" if rec["mode"] == "both" else rec["mode"]
-        key = _key(mode, real, rec["links"], _field_of(rec["us"]), rec["text"], rec["ng"], "/" + "/".join(rec["cwd"]))
+        key = _key(mode, real, rec["links"], rec["us"], rec["text"], rec["ng"], "/" + "/".join(rec["cwd"]), rec["out"])
         rep.violation(key, f"random case on the {rec['mode']} file system(s): `{rec['text']}` delivered {rec['out']}, "
                            f"not allowed by Glob.tla", rec)
     if recs:
@@ -226,13 +232,16 @@ def replay(path):
         for r in vlib.read_ndjson(res):
             print(json.dumps(r))
         bad = json.loads(out.strip().splitlines()[-1])["bad"]
-    else:                   # a rejected random record: judge it again
-        src = os.path.join(wd, "one.ndjson")
+    else:                   # a rejected random record: run it again and let TLC judge
+        src = os.path.join(wd, "in.ndjson")
         with open(src, "w") as f:
             f.write(json.dumps(rec) + "\n")
-        verdicts, _, _ = _validate_sharded(src, 1, 300)
-        print(f"recorded case judged: {verdicts.get(1, 'ok')}")
-        bad = 1 if verdicts.get(1, "ok") == "reject" else 0
+        res = os.path.join(wd, "one.ndjson")
+        vlib.run_harness(PKG, ["redo", "--in", src, "--out", res])
+        verdicts, n, _ = _validate_sharded(res, 1, 300)
+        for i, r in enumerate(vlib.read_ndjson(res), start=1):
+            print(f"{r['mode']}: `{r['text']}` delivered {r['out']}: {verdicts.get(i, 'ok')}")
+        bad = sum(1 for v in verdicts.values() if v == "reject")
     if bad:
         print(f"VIOLATION property={PID} replay={path}")
     return 1 if bad else 0
